@@ -974,6 +974,12 @@ def power(I, a, b):
         for _ in range(b):
             r = _arith(I, ast.Mult(), r, a)
         return r
+    if isinstance(b, float) and b == int(b) and 0 <= b <= 4 and numkind(a) is not None:
+        # x ** 2.0: the float result of the integer power (floats are reals here)
+        r = 1.0
+        for _ in range(int(b)):
+            r = _arith(I, ast.Mult(), r, a)
+        return cast_scalar(I, r, 'float')
     if isinstance(b, float) and b == 0.5:
         x = zreal(a)
         if not I.st.branch(x >= 0, exact=True):
